@@ -185,4 +185,43 @@ theorem C06_bayes_closed_form (K : Var → Nat) (cnt pseudo : Factor) (hc : cnt.
 example : (countsTable [([0, 1], 1), ([1, 1], 1), ([0, 1], 1)] (fun _ => 2) 0 [1]).WF (fun _ => 2) :=
   (C06_counts_den _ _ 0 [1] (by decide) (fun _ => 0) (fun _ => by show 0 < 2; omega)).2
 
+
+/-- every row weight multiplied by `s` -/
+def scaleWeights (s : Rat) (data : Data) : Data := data.map (fun p => (p.1, s * p.2))
+
+theorem countAt_scale (s : Rat) (vs : List Var) (a : Asg) : ∀ data : Data,
+    countAt (scaleWeights s data) vs a = s * countAt data vs a
+  | [] => by simp [countAt, scaleWeights]
+  | p :: data => by
+    have ih := countAt_scale s vs a data
+    unfold countAt scaleWeights at *
+    simp only [List.map_cons, List.sum_cons]
+    rw [ih, mul_add]
+    congr 1
+    split <;> simp
+
+/-- **row weights matter only through their ratios**: multiplying every weight by the same non-zero number (weights given on the
+    scale of 1e-12, or in thousands) leaves the maximum-likelihood CPD unchanged -/
+theorem C06_mle_weight_scale (data : Data) (K : Var → Nat) (child : Var) (parents : List Var)
+    (hn : (child :: parents).Nodup) (s : Rat) (hs : s ≠ 0) (a : Asg) (ha : Bounded K a) :
+    (mle (scaleWeights s data) K child parents).den a = (mle data K child parents).den a := by
+  have h1 := C06_counts_den data K child parents hn
+  have h2 := C06_counts_den (scaleWeights s data) K child parents hn
+  have hden : ∀ b, Bounded K b →
+      (countsTable (scaleWeights s data) K child parents).den b = s * (countsTable data K child parents).den b := by
+    intro b hb
+    rw [(h2 b hb).1, (h1 b hb).1, countAt_scale]
+  have hsum : sumVar K child (countsTable (scaleWeights s data) K child parents).den a
+      = s * sumVar K child (countsTable data K child parents).den a := by
+    rw [sumVar_eq, sumVar_eq, Finset.mul_sum]
+    apply Finset.sum_congr rfl
+    intro x hx
+    exact hden _ (upd_bounded ha child x (Finset.mem_range.mp hx))
+  unfold mle
+  rw [C06_mle_closed_form K _ (h2 a ha).2 child parents rfl a ha,
+      C06_mle_closed_form K _ (h1 a ha).2 child parents rfl a ha, hsum, hden a ha]
+  by_cases h0 : sumVar K child (countsTable data K child parents).den a = 0
+  · simp [h0]
+  · rw [if_neg h0, if_neg (mul_ne_zero hs h0), mul_div_mul_left _ _ hs]
+
 end PgmVerif
